@@ -107,8 +107,26 @@ def norm_step(step):
     return res + '#' + '&'.join(parts)
 
 
+KORD = {'b': 0, 'i': 1, 'f': 2}
+BITWISE = ('or', 'and', 'xor', 'shl', 'shr')
+
+
+def inplace_refused(fn, kt, ko=None):
+    """NumPy's rule for `target <op>= operand` on arrays (what a Python list of NumPy arrays does element by element):
+    the result dtype of the operation must be castable to the target's dtype with casting='same_kind', otherwise
+    UFuncTypeError; bitwise operators are not defined for floats at all (TypeError).  kt / ko: dtype kind (b, i, f) of
+    the target and of a sequence operand; ko=None: a Python int operand (an integer result for a boolean target)."""
+    if kt not in KORD or (ko is not None and ko not in KORD):
+        return False
+    if fn in BITWISE and 'f' in (kt, ko):
+        return True
+    if ko is None:
+        return kt == 'b'
+    return KORD[ko] > KORD[kt]
+
+
 def parse_lay(s):
-    """'0=0,0:0.2,2.1' -> {0: (buf, is_view, [(0,2),(2,1)])}"""
+    """'0=0,0f:0.2,2.1' -> {0: (buf, is_view, [(0,2),(2,1)], dtype kind of the elements or '?')}"""
     out = {}
     if not s:
         return out
@@ -117,7 +135,7 @@ def parse_lay(s):
         i, _, bk = head.partition('=')
         b, v = bk.split(',')
         ol = [tuple(int(x) for x in p.split('.')) for p in body.split(',')] if body else []
-        out[int(i)] = (int(b), v == '1', ol)
+        out[int(i)] = (int(b), v[:1] == '1', ol, v[1:] or '?')
     return out
 
 
@@ -130,7 +148,8 @@ class Tracker:
     for ever (what `lst[1:]` does).  Used to generate in-range arguments, to predict refusals,
     and to recognise S-C15d (lineage says shared, the implementation no longer shares)."""
 
-    def __init__(self):
+    def __init__(self, kind='f'):
+        self.kind = kind      # element dtype kind of the configuration (f | i)
         self.cells = {}
         self.seqs = []        # dict(c=[cell ids], pend=None|[cells], alive, isbool, born, grew)
         self.t = 0
@@ -138,7 +157,7 @@ class Tracker:
         self.nseq = 0
 
     def copy(self):
-        o = Tracker()
+        o = Tracker(self.kind)
         o.cells = dict(self.cells)
         o.seqs = [dict(s, c=list(s['c']), pend=None if s['pend'] is None else list(s['pend'])) for s in self.seqs]
         o.t = self.t
@@ -156,6 +175,22 @@ class Tracker:
         self.seqs.append(dict(c=list(cells), pend=None, alive=True, isbool=isbool, born=self.t, grew=-1,
                               intres=intres, narrow=narrow))
         return len(self.seqs) - 1
+
+    def kind_of(self, i):
+        s = self.seqs[i]
+        return 'b' if s['isbool'] else 'i' if (s['intres'] or self.kind == 'i') else 'f'
+
+    def refused(self, tok):
+        """is tok an in-place operator that NumPy's casting rule refuses (whatever else may refuse it first)?"""
+        f = tok.split(':')
+        try:
+            if f[0] == 'op' and f[3] == '1':
+                return inplace_refused(f[2].split(',')[0], self.kind_of(int(f[1])))
+            if f[0] == 'opq' and f[4] == '1':
+                return inplace_refused(f[2], self.kind_of(int(f[1])), self.kind_of(int(f[3])))
+        except IndexError:
+            pass
+        return False
 
     def live(self):
         return [i for i, s in enumerate(self.seqs) if s['alive']]
@@ -297,6 +332,8 @@ class Tracker:
             if not S[i]['c']:
                 return 'err:StopIteration'
             fn = f[2]
+            if f[3] == '1' and self.refused(tok):
+                return 'err:Type'
             if fn.startswith('mul'):
                 self.nmul += 1
             if f[3] == '1':
@@ -313,6 +350,8 @@ class Tracker:
                 return 'err:Value'
             if not A:
                 return 'err:StopIteration'
+            if f[4] == '1' and self.refused(tok):
+                return 'err:Type'
             if f[4] == '1':
                 for c, d in zip(A, B):
                     e = elem_op(f[2], self.cells[c], self.cells[d])
@@ -338,6 +377,28 @@ class Tracker:
             S[i]['alive'] = False
             return 'ok'
         raise ValueError(tok)
+
+
+def normalise_tokens(kind, toks):
+    """the tokens as the model must read them: an in-place operator that NumPy's casting rule refuses (decided here
+    from the dtype kinds the naive tracker keeps: configuration kind, boolean results of comparisons, integer
+    results of arithmetic on them) gets the flag 2 in its last field (-> OOpRefused in coq/C15/driver.ml); like the
+    dtchg flag this is an input of the model, which has no dtype component"""
+    tr = Tracker(kind)
+    out = []
+    for tok in toks:
+        f = tok.split(':')
+        try:
+            if tr.refused(tok):
+                f[-1] = '2'
+            elif f[0] in ('op', 'opq') and f[-1] == '2':
+                f[-1] = '0'
+            tok = ':'.join(f)
+            tr.apply(tok)
+        except Exception:
+            pass
+        out.append(tok)
+    return out
 
 
 # ------------------------------------------------------------------ generators
@@ -484,6 +545,18 @@ def seqop_core(g, tiny):
                 out.append(pre + [f'opq:{a}:add:{b}:0:0'])
                 out.append(pre + [f'opq:{a}:lt:{b}:0:1'])
         out.append(pre + ['opq:1:add:0:1:0'])            # refusal: different numbers of elements
+        # NumPy's casting rule for in-place operators (what a list of arrays does): 8 = p < 50 (bool), 9 = 8 + 7
+        # (int64), 10 = 9[1:], 11 = 9[[0, 0, 2..]] ; int <op>= float and bool <op>= int are refused before anything is
+        # written, int <op>= bool / float <op>= int / int <op>= int are not
+        cast = pre + ['op:0:lt,50:0:1', 'op:8:add,7:0:1', f'get:9:{enc_slice(1, None, None)}',
+                      'get:9:l,0,0' + ''.join(f',{k}' for k in range(2, n))]
+        for tail in (['opq:9:add:0:1:0', 'seti:9:0:5'], ['opq:9:sub:5:1:0', 'seti:9:-1:5'],
+                     ['opq:10:add:1:1:0', 'seti:10:0:5'], ['opq:11:add:6:1:0', 'seti:11:0:5'],
+                     ['opq:8:add:9:1:0', f'get:8:{enc_slice(None, None, None)}'],
+                     ['op:8:add,7:1:0', f'get:8:{enc_slice(None, None, None)}'],
+                     ['opq:9:sub:8:1:0', 'seti:9:0:5'], ['opq:5:add:9:1:0', 'seti:5:0:5'],
+                     ['opq:9:add:9:1:0', 'opq:9:add:0:1:0', 'opq:0:add:9:1:0']):
+            out.append(cast + tail)
         if g.kind == 'i':
             for v in (1, 3, 4):
                 for fn in ('or,8', 'and,6', 'xor,5', 'shl,1', 'shr,1'):
@@ -509,14 +582,14 @@ def exhaustive(g, init_tok, depth, level, cap=None):
             rec(t2, toks + [tok], d - 1)
         g.counter = save
 
-    tr = Tracker()
+    tr = Tracker(g.kind)
     tr.apply(init_tok)
     rec(tr, [init_tok], depth)
     return out
 
 
 def random_history(g, rng, depth, bytes_choices, ext=False):
-    tr = Tracker()
+    tr = Tracker(g.kind)
     toks = []
 
     def push(tok):
@@ -866,7 +939,7 @@ def _check_history(toks, steps, lays, fails, known):
         def cellstore():
             cells = {}
             sc = {}
-            for x, (b, _, ol) in prev_lay.items():
+            for x, (b, _, ol, _k) in prev_lay.items():
                 sc[x] = [(b, o_, l_) for o_, l_ in ol]
                 for c, v in zip(sc[x], prev.get(x, [])):
                     cells.setdefault(c, list(v))
@@ -973,6 +1046,8 @@ def _check_history(toks, steps, lays, fails, known):
                 else:
                     if not mine:
                         exp_res = 'err:StopIteration'
+                    elif i in prev_lay and inplace_refused(f[2].split(',')[0], prev_lay[i][3]):
+                        exp_res = 'err:Type'      # a_bool += 7: what the arrays of a Python list do as well
                     for c in mine:
                         cells[c] = [apply_fn(f[2], v) for v in cells[c]]
                 if exp_res == 'ok':
@@ -993,6 +1068,10 @@ def _check_history(toks, steps, lays, fails, known):
                     exp_res = 'err:Value'
                 elif not A:
                     exp_res = 'err:StopIteration'
+                elif f[4] == '1' and i in prev_lay and j in prev_lay and \
+                        inplace_refused(f[2], prev_lay[i][3], prev_lay[j][3]):
+                    # a_int += a_float raises (same_kind casting) on the first element, before anything is written
+                    exp_res = 'err:Type'
                 elif f[4] == '1':
                     cells, sc = cellstore()
                     for c, d in zip(sc[i], sc[j]):
